@@ -3,19 +3,19 @@ import json, os, shutil, collections
 import vlib, fsmon
 
 
-def run_mode(ctx, mode, extra_args=()):
+def run_mode(ctx, mode, extra_args=(), binary="fsops"):
     """Runs `fsops <mode>`, reports violations found on real snapshots and by the TLC monitor.
     Returns (rows, summary, monitor_stats, trace_sample)."""
-    binp = vlib.build_bin("fsops")
+    binp = vlib.build_bin(binary)
     d = vlib.scratch_dir()
     try:
         runs, trace = os.path.join(d, "runs.ndjson"), os.path.join(d, "trace.ndjson")
         p = vlib.sh([binp, mode, "--runs", runs, "--trace", trace, "--tier", ctx.tier, "--seed", str(ctx.seed)] + list(extra_args),
-                    timeout=3000, env=dict(os.environ, VERIF_SANDBOX_BASE=d))
+                    timeout=3400, env=dict(os.environ, VERIF_SANDBOX_BASE=d))
         summ = json.loads([l for l in p.stdout.splitlines() if l.startswith("SUMMARY ")][-1][8:])
         rows = vlib.read_ndjson(runs)
         if not rows:
-            raise vlib.HarnessError("fsops %s produced no runs" % mode)
+            raise vlib.HarnessError("%s %s produced no runs" % (binary, mode))
         by_t = {}
         for r in rows:
             by_t[r["t"]] = r
